@@ -30,7 +30,7 @@ def pseudo_stop(p, i, h, atol, rtol):
 
 def stopper_cases(col, tier):
     ns = (3, 5) if tier == "quick" else (1, 2, 3, 4, 5, 6)
-    tols = ((1e-3, 0.0), (0.25, 0.0), (0.0, 0.6)) if tier == "quick" else ((1e-3, 0.0), (0.0, 0.0), (0.25, 0.0), (0.0, 0.6), (0.5, 1.0))
+    tols = ((1e-3, 0.0), (0.25, 0.0), (0.0, 0.6), (0.3, 0.5)) if tier == "quick" else ((1e-3, 0.0), (0.0, 0.0), (0.25, 0.0), (0.0, 0.6), (0.5, 1.0))
     distinct = 0
     for n in ns:
         hs = np.array(list(itertools.product(ALPHABET, repeat=n)), dtype=np.float32)
@@ -124,6 +124,27 @@ def run_optim(col, name, n, batch_size, validation, prune, restore, stopper, opt
         col.add({"sig": "native::optim::model_state", "what": "returned model state does not hold the returned position", "input": inp})
     else:
         col.add(None)
+    # the recorded losses are the losses OF THE RESPECTIVE DATA at the recorded positions: recomputed here from the data in closed form
+    def closed_form(model, scale):
+        X, yv = np.asarray(model.vars["x"].value, np.float64), np.asarray(model.vars["y"].value, np.float64)
+
+        def loss(cf):
+            ll = np.sum(-0.5 * (yv - X @ cf) ** 2 - 0.5 * np.log(2 * np.pi))
+            lpri = np.sum(-0.5 * (cf / 10.0) ** 2 - np.log(10.0) - 0.5 * np.log(2 * np.pi))
+            return -(scale * ll + lpri)
+        return loss
+
+    n_val = int(np.asarray(val.vars["y"].value).shape[0]) if validation else n
+    f_val = closed_form(val if validation else train, n / n_val)
+    f_train = closed_form(train, 1.0)
+    idx = sorted({0, 1, it // 2, it} & set(range(it + 1)))
+    off = [i for i in idx if not (np.isclose(lv[i], f_val(hp[i].astype(np.float64)), rtol=2e-3, atol=2e-3) and np.isclose(lt[i], f_train(hp[i].astype(np.float64)), rtol=2e-3, atol=2e-3))]
+    if off:
+        i = off[0]
+        col.add({"sig": "native::optim::recorded_loss_is_not_the_loss_of_the_data", "what": f"iteration {i}: recorded (train, validation) loss = ({lt[i]:.4f}, {lv[i]:.4f}); recomputed from the "
+                 f"{'validation' if validation else 'training'} / training data at the recorded position: ({f_train(hp[i].astype(np.float64)):.4f}, {f_val(hp[i].astype(np.float64)):.4f})", "input": inp})
+    else:
+        col.add(None)
     want_len = it + 1 if prune else M
     bad_len = any(len(a) != want_len for a in (lv, lt, hp))
     bad_pad = (not prune) and not (np.all(np.isnan(lv[it + 1 :])) and np.all(np.isnan(lt[it + 1 :])) and np.all(np.isnan(hp[it + 1 :])) and not np.any(np.isnan(lv[: it + 1])))
@@ -203,7 +224,7 @@ def bounded(tier, seed):
         "rule": ("BOUNDED: real Stopper.stop_early/stop_now/continue_/which_best (jit+vmap) on every loss history over {0,0.5,1}^n, "
                  f"n in {(3, 5) if tier == 'quick' else (1, 2, 3, 4, 5, 6)}, patience 1..min(4,n), every i, several tolerance pairs, against the documented pseudo-code; "
                  f"real optim_flat on {len(scen)} small regression scenarios (validation / none, prune / pad, restore / last, minibatch with batch size "
-                 "not dividing n; batches recorded through a wrapper of _generate_batch_indices). distinct = (history, i, patience, tolerances) tuples + scenarios."),
+                 "not dividing n; batches recorded through a wrapper of _generate_batch_indices; recorded train / validation losses recomputed in closed form from the training / (distinct) validation data at the recorded positions). distinct = (history, i, patience, tolerances) tuples + scenarios."),
         "samples": samples[:2],
         "exhaustive": False,
         "violations": col.violations,
